@@ -103,7 +103,7 @@ Lemma compile_in_err : forall g o m vec clr,
 Proof. intros. unfold compile_in_obj. destruct (compile_obj _ _ _ _ _) as [g1 ob]. destruct ob; reflexivity. Qed.
 
 Lemma from_yaml_mc : forall g, module_cache (fst (from_yaml g)) = module_cache g.
-Proof. intros. unfold from_yaml. destruct (template_cache g); reflexivity. Qed.
+Proof. intros. unfold from_yaml, from_yaml_k. destruct fixed_yaml_copy; destruct (template_cache g); reflexivity. Qed.
 
 Lemma step_mc_ok : forall fx g o, mc_ok (module_cache g) -> mc_ok (module_cache (fst (step_with fx g o))).
 Proof.
@@ -185,10 +185,11 @@ Proof. intros h m vec. exact (partial_compile_fx fixed_clear h m vec). Qed.
 
 Lemma obs_of_yaml_core : forall g, mc_ok (module_cache g) ->
   obs_of_yaml g = c_obs (compile_core (op_cache g) (node_cache g) (node_labels g) (in_edge_indices g) [] []
-                          (ymodel (match template_cache g with Some e => tc_kA e | None => None end)) false).
+                          (ymodel (if fixed_yaml_copy then None else match template_cache g with Some e => tc_kA e | None => None end)) false).
 Proof.
-  intros g H. unfold obs_of_yaml. cbn [step_with]. unfold from_yaml.
-  destruct (template_cache g) as [e|] eqn:E; cbn; rewrite snd_compile_obj; cbn; apply compile_core_obs; exact H.
+  intros g H. unfold obs_of_yaml. cbn [step_with]. unfold from_yaml, from_yaml_k.
+  destruct fixed_yaml_copy; destruct (template_cache g) as [e|] eqn:E; cbn; rewrite snd_compile_obj; cbn;
+    rewrite compile_core_obs by exact H; reflexivity.
 Qed.
 
 (* history independence, templates loaded from YAML *)
@@ -199,7 +200,8 @@ Proof.
   rewrite obs_of_yaml_core by apply reachable_mc_ok. rewrite (obs_of_yaml_core G0) by apply mc_ok_nil.
   apply caches_clean_fields in Hc as (A & B & C & D & _). rewrite A, B, C, D.
   unfold template_clean in Ht. cbn.
-  destruct (match template_cache (run_hist_with fx h G0) with Some e => tc_kA e | None => None end); [discriminate|reflexivity].
+  destruct (match template_cache (run_hist_with fx h G0) with Some e => tc_kA e | None => None end); [discriminate|].
+  destruct fixed_yaml_copy; reflexivity.
 Qed.
 
 Theorem partial_yaml : forall h, Compatible h = true -> obs_of_yaml (run_hist h G0) = obs_of_yaml G0.
@@ -402,10 +404,10 @@ Proof.
     match goal with |- context [compile_obj ?G ?O ?M ?V ?C] => destruct (compile_obj_frame G O M V C) as (_ & _ & _ & D & _) end.
     rewrite D. exact H.
   - apply fcompile_obj_ext. cbn. exact H.
-  - unfold from_yaml. destruct (template_cache g); cbn;
+  - unfold from_yaml, from_yaml_k. destruct fixed_yaml_copy; destruct (template_cache g); cbn;
       match goal with |- context [compile_obj ?G ?O ?M ?V ?C] => destruct (compile_obj_frame G O M V C) as (_ & _ & _ & D & _) end;
       rewrite D; exact H.
-  - unfold from_yaml. destruct (template_cache g); cbn; exact H.
+  - unfold from_yaml, from_yaml_k. destruct fixed_yaml_copy; destruct (template_cache g); cbn; exact H.
   - destruct (handle g h); [destruct (has_ir g n)|]; destruct fx; cbn; exact H.
   - destruct (handle g h); [destruct (has_ir g n)|]; destruct fx; cbn; exact H.
   - cbn. exact H.
@@ -425,11 +427,12 @@ Lemma not_err : forall o, is_err o = false -> forall c, o <> OErr c.
 Proof. intros o H c E. subst. discriminate. Qed.
 
 Lemma from_yaml_caches : forall g, caches_clean (fst (from_yaml g)) = caches_clean g /\
-  template_clean (fst (from_yaml g)) = template_clean g /\
+  (template_clean g = true -> template_clean (fst (from_yaml g)) = true) /\
   template_cache (fst (from_yaml g)) = Some (snd (from_yaml g)) /\
   (template_clean g = true -> tc_kA (snd (from_yaml g)) = None).
 Proof.
-  intros g. unfold from_yaml, template_clean. destruct (template_cache g) as [e|] eqn:E; cbn.
+  intros g. unfold from_yaml, from_yaml_k, template_clean. destruct (template_cache g) as [e|] eqn:E; [destruct fixed_yaml_copy|]; cbn.
+  - repeat split; auto.
   - rewrite E. repeat split; auto. destruct (tc_kA e); [discriminate|reflexivity].
   - repeat split; auto.
 Qed.
@@ -479,7 +482,7 @@ Proof.
       apply negb_true_iff in Hn1. cbn [step_with] in *.
       destruct (from_yaml_caches g) as (F1 & F2 & F3 & F4).
       assert (P1 : sys_py (mods (fst (from_yaml g))) = []).
-      { unfold from_yaml. destruct (template_cache g); cbn; exact P. }
+      { unfold from_yaml, from_yaml_k. destruct fixed_yaml_copy; destruct (template_cache g); cbn; exact P. }
       destruct (from_yaml g) as [g1 e]. cbn [fst snd] in *.
       match type of Hn1 with is_err (snd (compile_obj ?G ?O ?M _ _)) = _ =>
         destruct (compile_obj_clean G O M false P1 (not_err _ Hn1)) as (K1 & K2 & _) end.
@@ -521,6 +524,23 @@ Proof.
   intros h Hd Hn. change (Compatible h) with (clean (run_hist_with fixed_clear h G0)).
   eapply disciplined_inv; eauto.
 Qed.
+
+(* ------------------------------------------------------------------ the operator cache with the structural key (second switch) *)
+Definition own_def (nd : mnode) : expr * list Qc := (m_eq nd, [match m_over nd with Some v => v | None => m_kdef nd end]).
+
+Lemma phase1_fixed_gen : forall nodec l s,
+  map (fun c => (n_eq c, n_units c)) (s_circ (fold_left (node_step_k true nodec false) l s)) =
+  (map (fun c => (n_eq c, n_units c)) (s_circ s) ++ map own_def l)%list.
+Proof.
+  induction l as [|nd l IH]; intros s; cbn [fold_left map]; [rewrite app_nil_r; reflexivity|].
+  rewrite IH. unfold node_step_k. cbn. destruct (unique_label (m_label nd) (s_labels s)) as [lab labels'].
+  cbn. rewrite map_app. cbn. rewrite <- app_assoc. reflexivity.
+Qed.
+
+(* with the structural key every IR node carries its own operator's equation and its own default (or node-level) value,
+   whatever the operator cache holds: for all models and all cache contents *)
+Theorem op_cache_key_fixed : forall opc m, map (fun c => (n_eq c, n_units c)) (phase1_k true opc m) = map own_def (m_nodes m).
+Proof. intros. unfold phase1_k. rewrite phase1_fixed_gen. reflexivity. Qed.
 
 (* ------------------------------------------------------------------ glue for the computed refutations *)
 Lemma Qc_eqb_refl : forall q, Qc_eqb q q = true.
